@@ -8,7 +8,8 @@ CONSTANTS
   NS = 1
   NK = 1
   Strategies = {0}
-  Adaptive = {0}
+  WKinds = {"off"}
+  WinMode = "diag"
 INIT Init
 NEXT Next
 INVARIANTS PickValid PickExists ScoredOK Proportional UniformWhenZero
